@@ -72,10 +72,7 @@ Eval vm_compute in ("<<<M1732>>>" ++ check (runes_of_ascii "packet Z9_ {
             42 : metadata,
             // `tick` ""quote"" 'q'
             [255, ""\n""] : zchar,
-            [
-                3, 4294967296, 0123456789,
-                """ ++ [233]%N ++ runes_of_ascii "t" ++ [233]%N ++ runes_of_ascii """, ""x y""
-            ] : metadata,
+            [3, 4294967296, 0123456789, """ ++ [233]%N ++ runes_of_ascii "t" ++ [233]%N ++ runes_of_ascii """, ""x y""] : metadata,
             [""it's"", ""// no comment""] : Z9_,
         },
     },
@@ -365,59 +362,68 @@ u8x
 packet
 lengthOf  { }
 ")).
-Eval vm_compute in ("<<<M13>>>" ++ check (runes_of_ascii "root
-    packet	roots{ // `tick` ""quote"" 'q'
-} options	{	asx =
-    ""\n"" ; x_y_z =
-3 ;rootA = ""CRC32""
-    ;float=char  T = false
-; }
-packet falsey {
-body { match u8x as /// triple
-string_{ [
-42,7 ,65535
-    ,
-    3 ,
-    42 ,7 , ""1""
-    , ""packet"" ]:
-    // `tick` ""quote"" 'q'
-    i64_ , [ ""abc""]
-    :  Foo ,	""a\\""
-    :
-roots ,
-    4294967296 :	stringy	}
-    , //x
-asx
-`{ , }` // " ++ [128512]%N ++ runes_of_ascii " emoji
-, i8
-charz@lengthOf( // trailing space 
-x_y_z)// trailing space 
-`a\` ,}
-    // @lengthOf(
-    , @tag( 65535 ) i64_ @lengthOf( tag )`u8 x,`
+Eval vm_compute in ("<<<M176>>>" ++ check (runes_of_ascii "
+packet i8i8 { @tag( 0 ) int32
+leftPad `it's`
+, repeat char[]Header`crlf
+line`
+, @calculatedFrom( ""\" ++ [233]%N ++ runes_of_ascii """ )/// triple
+repeat
+    uint8 float , @rightPad
+('\x00' ) char[] zchar@lengthOf(
 // a // b
-//	t
-,Z9_@lengthOf( int )
-, @calculatedFrom( ""a\""b""
-)uint16  stringy @lengthOf( trueish ) , Logon	{string  Logon `say ""hi""` , packetx
-i64_ , match msg_type as	float
-{ ""\n"" : i64_,	[
-""" ++ [128512]%N ++ runes_of_ascii """
-    ]
-:
-metadata , // `tick` ""quote"" 'q'
-[
-// trailing space 
+//x
+leftPad )
+`
+` , Z9_ ,
+@lengthOf(
+x ) match As as
+    tag {	""a	b""  :
+string_ [
+10 , 7 , ""1"" , 255
+,
+3
+    , 42 ,
+    //
+    0123456789, """ ++ [128512]%N ++ runes_of_ascii """ ] :x_y_z ,""CRC32""
+: Z9_  , 00
+    // c
+    : Logon
+    ,
+} , @tag(007) o {
+    char
+    Packet
+@lengthOf(
+    //	t
+    repeatCount
+) , } , @lengthOf(
+// " ++ [27880; 37322]%N ++ runes_of_ascii "
+/// triple
+pack
+) float64 rootA `two words`
+    ,	repeat char[] BodyLength ,}
+packet Z9_{ match
+    // packet A { u8 x, }
+    As
+as
+    a1{ //
+0: trueish // `tick` ""quote"" 'q'
+,} ,
+/// triple
+// " ++ [27880; 37322]%N ++ runes_of_ascii "
+} root packet u8x {
+/// triple
 // " ++ [128512]%N ++ runes_of_ascii " emoji
-10, ""1""  ]
-:zchar ,
-}
-    , //x
-}
-    //x
-    , Packet
-    @calculatedFrom(""CRC32"" ), }
-")).
+repeat
+string Logon `tab	here` , // " ++ [128512]%N ++ runes_of_ascii " emoji
+}	options { _x
+=
+    ""packet""
+;f32a =007 } packet i8i8 {@calculatedFrom( ""CRC32"" )
+A @lengthOf(
+a1
+)
+, } 	 ")).
 Eval vm_compute in ("<<<M1605>>>" ++ check (runes_of_ascii "// top
 options {
     // c1a
@@ -650,37 +656,37 @@ line`, }
     root	packet zchar{ f32 _x @calculatedFrom( ""a\\"" ), }	MetaData chars // trailing space 
 {//
 }")).
-Eval vm_compute in ("<<<M210>>>" ++ check (runes_of_ascii "MetaData tag {
+Eval vm_compute in ("<<<M328>>>" ++ check (runes_of_ascii "
+packet
+Logon { repeatCount { BodyLength
+    `crlf
+line`, }
+    , zchar a1 `u8 x,`  ,
+match Foo as Foo { ""\n"" :i8i8,[
+""abc""
+    , // trailing space 
+""CRC32"" ]
+/// triple
+// " ++ [128512]%N ++ runes_of_ascii " emoji
+: // @lengthOf(
+crc
+    [ 3 ,
 //
-//
-char[// a // b
-3 ] // a // b
-msg_type
-    // c
-    , char[7 ] options1
-,
-    // trailing space 
-    float crc
-,calculatedFrom pack ,int64 u  `a\`,}
-packet leftPad{char[
-    1
-]
-    /// triple
-    zchar
-,
-    //
-    } packet crc { // c
-@lengthOf( packetx	) @lengthOf( asx)
-@lengthOf( packetx ) calculatedFrom {	f32 packetx	``
-// packet A { u8 x, }
-//x
-, },
-} options { Z9_
-= ""\" ++ [233]%N ++ runes_of_ascii """
+// " ++ [128512]%N ++ runes_of_ascii " emoji
+""x y"", 42 , ""`tick`""
+, 1 , ""a\""b"",
+    ""CRC32"" , 255 ]:repeatCount , [// " ++ [128512]%N ++ runes_of_ascii " emoji
+1
+// a // b
+// " ++ [27880; 37322]%N ++ runes_of_ascii "
+,007 ,
+""\n"",007 , 7 , ""// no comment"" ,
+255 ] :
+    uint8x 00
+: f32a , } ,
     // a // b
-    float = ' ' ; packetx = ""x y""
-    calculatedFrom  = int16
-    ;
+    uint16 Pad @lengthOf( uint8x)// packet A { u8 x, }
+`doc`  ,
 }")).
 Eval vm_compute in ("<<<M1113>>>" ++ check (runes_of_ascii "// top
 packet // c0
@@ -788,32 +794,28 @@ Eval vm_compute in ("<<<M79>>>" ++ check (runes_of_ascii "packet	Pad //
 } ,string i8i8// trailing space 
 @calculatedFrom( """ ++ [128512]%N ++ runes_of_ascii """
     ) ,packetx, } // c")).
-Eval vm_compute in ("<<<M1138>>>" ++ check (runes_of_ascii "// top
-MetaData // c0
-leftPad // c1
-{ // c2
-chars // c3
-MetaDataX // c4
-, // c5
-} // c6
-packet // c7
-repeatCount // c8
-{ // c9
-char[ // c10
-255 // c11
-] // c12
-uint8x // c13
-`" ++ [233]%N ++ runes_of_ascii "` // c14
-, // c15
-} // c16
-MetaData // c17
-pack // c18
-{ // c19
-As // c20
-Foo // c21
-, // c22
-} // c23
-")).
+Eval vm_compute in ("<<<M1437>>>" ++ check (runes_of_ascii "MetaData T {
+    uint8 float,
+    repeatCount x,
+    char[10] asx,
+    char[00] metadata `" ++ [233]%N ++ runes_of_ascii "`,
+    u8x asx,
+}
+
+MetaData trueish {
+    charz string_ `crlf
+        line`,
+    zchar[42] _x,
+}
+
+packet o {
+    char[] u8x @calculatedFrom(""abc""),
+}
+
+options {
+    x = 255;
+    u = '0'
+}")).
 Eval vm_compute in ("<<<M242>>>" ++ check (runes_of_ascii "packet len{} options	{ Z9_ =  4294967296;
 _x =// a // b
 0
